@@ -394,7 +394,9 @@ class ArgumentParser:
                 ):
                     default_value = kwargs.pop("default")
                     flag_name = option["flags"][0]
-                    namespace._passes[flag_name] = default_value
+                    # Copy: custom actions modify this list in place, and the
+                    # default belongs to the shared compiler definition.
+                    namespace._passes[flag_name] = list(default_value)
             parser.add_argument(*option["flags"], **kwargs)
 
         # Make a best-effort attempt to parse arguments.
